@@ -30,7 +30,7 @@ SHRINK_BUDGET = 60.0
 
 
 def examples(tier):
-    return 240 if tier == "quick" else 6000
+    return 240 if tier == "quick" else 20000
 
 
 def case_cost(case):
@@ -59,7 +59,7 @@ BASE = {"cfg": {"algo": "SHA-256", "depth": 2, "width": 2}, "contents": [{"hex":
 
 def enumerate_cases(tier):
     for case in c07.enumerate_cases("quick"):
-        yield dict(case, family="pairs07")
+        yield dict(case, family="pairs07", all_followups=(tier == "thorough"))
     for case in c12.enumerate_cases("quick"):
         if case.get("max_preempt", 1) >= 2:
             if case.get("i_mod", [1, 0])[1] != 0 or case.get("firsts") != [0]:
@@ -163,7 +163,7 @@ def run_case(case, ctx):
                 desc = f"[{fam}] start={case['start_name']} program={_prog(world, calls)} order={order} preemptions={pre}"
                 # follow-up calls (the robust but costly part of the oracle) run on every 6th schedule (every 3rd when a thread waited) and
                 # whenever something unusual happened; the lock lists are inspected after every execution
-                follow = i % 6 == 0 or bool(ex.locks) or (any(ex.waited) and i % 3 == 0)
+                follow = case.get("all_followups") or i % 6 == 0 or bool(ex.locks) or (any(ex.waited) and i % 3 == 0)
                 judge(ctx, world, desc, calls, ex, {"family": fam, "ops": sorted(conc.op_pattern(c, world) for c in calls)},
                       follow=follow)
                 if follow:
